@@ -34,6 +34,8 @@ var c17Types = []c17type{
 	// two tagged keys, the second embedding the first, which embeds a struct of two fields: the
 	// members of Ident are flattened twice in one run (for its own set, and again inside Port)
 	{"Ident", "keys.Ident", `keys.Ident{Meta: keys.Meta{P: i / 3, Q: i % 3}}`, `e.P*3 + e.Q`},
+	// an embedded field of a named scalar type: flattening keeps it (it is no struct), less must compare it
+	{"NKey", "keys.NKey", `keys.NKey{NS: keys.NS(string(rune('a' + i/4))), Name: i % 4}`, `int(e.NS[0]-'a')*4 + e.Name`},
 	{"Port", "keys.Port", `keys.Port{Ident: keys.Ident{Meta: keys.Meta{P: (i / 2) % 2, Q: i % 2}}, Number: i / 4}`, `e.Number*4 + e.P*2 + e.Q`},
 }
 
@@ -65,6 +67,14 @@ type Ident struct{ Meta }
 type Port struct {
 	Ident
 	Number int
+}
+
+type NS string
+
+// +genset=true
+type NKey struct {
+	NS
+	Name int
 }
 
 // NotAKey has no tag: no set is generated for it.
@@ -363,7 +373,7 @@ func c17(g *Gen) {
 		files = append(files, e.Name())
 	}
 	sort.Strings(files)
-	if want := "byte.go doc.go empty.go ident.go int.go int64.go key.go pair.go port.go string.go"; strings.Join(files, " ") != want {
+	if want := "byte.go doc.go empty.go ident.go int.go int64.go key.go nKey.go pair.go port.go string.go"; strings.Join(files, " ") != want {
 		problems = append(problems, "generated files: "+strings.Join(files, " ")+" (accepted element types should give: "+want+")")
 	}
 	g.Emit("C17.regen!", list(atom(strings.Join(problems, "; "))), boolS(len(problems) == 0), "regenerated-vs-checked-in", "filter")
